@@ -99,8 +99,8 @@ V_ENSURES(__CPROVER_return_value == 1 || V_OLD(zck->error_state) > 0 || zck->err
  * stored chunk is represented by an all-zero digest), -1 = they do not, 0 = error.
  * Watched hash object for the ghost model: &idx->zck->check_chunk_hash. */
 int validate_chunk(zckChunk *idx, zck_log_type bad_checksum)
-V_REQUIRES(CHUNK_WF(idx))
-V_REQUIRES(CHUNK_HASH_WF(idx->zck))
+V_REQUIRES_WF(CHUNK_WF(idx))              /* _WF: compiled out in control-only units (-DVERIF_CTL), identical text everywhere else */
+V_REQUIRES_WF(CHUNK_HASH_WF(idx->zck))
 /* C09 call-site guard (spec/ghost.h, present only with -DVERIF_SCAN_GUARD: units/scan.c): the validity scan asks for the verdict with the descriptor just
  * behind the chunk's last stored byte and exactly comp_length bytes fed to the running chunk hash since its initialisation */
 V_REQUIRES_SCAN((g_fpos[G_IX(idx->zck->fd)] == (g_off_t)idx->zck->data_offset + (g_off_t)idx->start + (g_off_t)idx->comp_length && idx->zck->check_chunk_hash.ctx != NULL && (g_hu_hash != &idx->zck->check_chunk_hash || g_hu_total == idx->comp_length)))
